@@ -4,8 +4,8 @@ import RisorModel.Generated.C17
 C17 ties: the JSON schema regenerated from compiler/store.go on this run against the schema
 the model (and the oracle's rendering of `marshal`) was written from.  Dropping or renaming
 a serialised field, changing an `omitempty`, a type tag, the set of fields copied by
-stateFromCode/codeFromState/definitionFrom…/…FromDefinition, or the expression `isNamed` is
-recomputed from breaks exactly one lemma below.
+stateFromCode/codeFromState/definitionFrom…/…FromDefinition, the expression `isNamed` is
+recomputed from, or the places that give a code object its name breaks exactly one lemma below.
 -/
 namespace Risor.C17
 
@@ -48,5 +48,19 @@ theorem symbol_fields_match :
     Risor.Generated.C17.symbolTableFields = ["freeByName", "id", "isBlock", "symbols", "symbolsByName"] ∧
     Risor.Generated.C17.symbolDefFields = ["Index", "IsConstant", "Name", "Value"] ∧
     Risor.Generated.C17.symbolFields = ["index", "isConstant", "name", "value"] := by decide
+
+/-- **Who gives a code object its name.**  In package compiler a `Code` gets `name` and
+    `isNamed` in three places only, all of them composite literals: `newChild` (`name` = its
+    argument, `isNamed: name != ""` — model `nameOK`, non-root case), `New` (the root: the
+    literal `"__main__"`, `isNamed` left false — `nameOK`, root case) and `codeFromState`
+    (`mkNode`).  Nothing assigns to a field called `name` or `isNamed` afterwards, so in
+    compiled code a code object carries a name exactly when it is a named function
+    (`CompileNames`), which is what makes the recomputed `isNamed` the original one
+    (`compileNames_guard_exact`, `C17_partial_compiled`). -/
+theorem codeNameWrites_tie :
+    Risor.Generated.C17.codeLits =
+      [("newChild", "ident", "( $name != \"\" )"), ("New", "lit:\"__main__\"", "absent"),
+       ("codeFromState", "sel:.Name", "( ( $name != \"\" ) && ( $name != \"__main__\" ) )")]
+    ∧ Risor.Generated.C17.codeNameAssigns = [] := by decide
 
 end Risor.C17
